@@ -24,6 +24,9 @@ CONSTANTS
   QueueCap = %(cap)d
   MaxFail = %(fail)d
   MaxExpire = %(exp)d
+  TTLOf <- MCTTLOf
+  MaxStale <- MCMaxStale
+  Advances <- MCAdvances
 %(tail)s
 """
 SAFETY = "SYMMETRY Symm\nINVARIANTS TypeOK NoTwin Bounded Once Agree LockExclusive QueueBounded"
@@ -39,6 +42,9 @@ CONSTANTS
   QueueCap = 1000000
   MaxFail = 1000000
   MaxExpire = 1000000
+  TTLOf <- TraceTTLOf
+  MaxStale = 3600
+  Advances = {}
   TraceFile = "%s"
 CHECK_DEADLOCK FALSE
 """
@@ -61,13 +67,15 @@ def run_mc(ctx):
     plan = [
         ("instant", "instant", 4, 2, 2, 2, 1),
         ("instant-cap1", "instant", 3, 2, 1, 1, 1),
-        ("f10", "f10", 3, 2, 2, 1, 1),
+        ("f10", "f10", 3, 2, 2, 1, 0),
         ("range1", "range1", 3, 2, 2, 1, 1),
     ]
     if ctx.thorough:
         plan += [
-            ("instant-K5", "instant", 5, 2, 2, 1, 1),
-            ("mixed", "mixed", 4, 2, 2, 1, 1),
+            ("f10-expiry", "f10", 3, 2, 2, 1, 1),
+            ("instant-2adv", "instant", 3, 2, 2, 1, 2),
+            ("instant-K5", "instant", 5, 2, 2, 1, 0),
+            ("mixed", "mixed", 4, 2, 2, 1, 0),
         ]
     leads = []
 
@@ -99,6 +107,10 @@ def has_hook(ctx):
     return os.path.exists(os.path.join(ctx.repo, "internal", "promapi", "hooks_verif.go"))
 
 
+def has_state_hook(ctx):
+    return os.path.exists(os.path.join(ctx.repo, "internal", "promapi", "hooks_verif_state.go"))
+
+
 def build(ctx, h3):
     src = ctx.mkdir("harness-src")
     if not os.path.exists(os.path.join(src, "go.mod")):
@@ -112,6 +124,8 @@ def build(ctx, h3):
         shutil.copy(os.path.join(ctx.repo, "go.sum"), os.path.join(src, "go.sum"))
     out = ctx.path("bin", "vh-c14-race")
     tags = "verif h3" if h3 else "verif"
+    if h3 and has_state_hook(ctx):
+        tags += " h3b"
     t = time.time()
     r = subprocess.run(["go", "build", "-tags", tags, "-race", "-o", out, "./cmd/vh"], cwd=src, env=vlib.go_env(),
                        capture_output=True, text=True)
@@ -161,7 +175,7 @@ def sig_of(v):
     return "C14:%s:%s%s" % (v["inv"], v["kind"], ":shared-slice" if v.get("shared") else "")
 
 
-def gen_cases(ctx, n_total, traced_share=0.85):
+def gen_cases(ctx, n_total, traced_share=0.85, clock_ok=True):
     gen = ctx.tlc("PromClientGen", "PromClientGen.cfg", workers=4, timeout=600, tag="gen")
     space = [v[0] for v in prints(gen, "CASE")]
     if len(space) != gen["distinct"]:
@@ -177,6 +191,11 @@ def gen_cases(ctx, n_total, traced_share=0.85):
     for m in mixes:
         pool = by_mix[m]
         # contention matters most: prefer latency and more callers than workers
+        # the clock dimension: a third of the sample runs a second round after the cache clock advanced
+        if not clock_ok:
+            pool = [c for c in pool if c["clock"] == "none"]
+        else:
+            pool = [c for c in pool if c["clock"] == "none"][::3] + [c for c in pool if c["clock"] != "none"][::2]
         good = [c for c in pool if c["lat"] != "none" and c["k"] > c["c"]]
         pick = rnd.sample(good, min(len(good), per * 2 // 3)) + rnd.sample(pool, per - min(len(good), per * 2 // 3))
         cases += pick
@@ -199,24 +218,37 @@ CONSTANTS
   Questions <- MCQuestions
   LockKeyOf <- MCLockKeyOf
   ReqsOf <- MCReqsOf
-  Scenario = "instant"
+  Scenario = "%s"
   QueueCap = %d
   MaxFail = %d
   MaxExpire = 0
+  TTLOf <- MCTTLOf
+  MaxStale <- MCMaxStale
+  Advances <- MCAdvances
 INVARIANTS EmitBehaviour SchedInv
 CHECK_DEADLOCK FALSE
 """
 
 
-def gen_behaviours(ctx, n):
-    """GEN for schedule replay: TLC simulates complete behaviours of the small instance (instant questions)."""
+def gen_behaviours(ctx, n, ranges):
+    """GEN for schedule replay: TLC simulates complete behaviours of small instances: instant questions, and (with hook
+    h3b, which lets the controller see the queue) an instant question plus a range query of 2 or 3 slices whose failing
+    slice cancels its siblings."""
     out, seen = [], set()
-    shapes = [(3, 2, 2, 1), (4, 2, 2, 1), (3, 1, 1, 1), (2, 2, 1, 2)]
-    for i, (k, c, cap, fail) in enumerate(shapes):
+    shapes = [("instant", 3, 2, 2, 1), ("instant", 4, 2, 2, 1), ("instant", 3, 1, 1, 1), ("instant", 2, 2, 1, 2)]
+    if ranges:
+        shapes += [("replay2", 3, 2, 3, 1), ("replay3", 3, 2, 3, 1), ("replay2", 4, 2, 2, 2), ("replay3", 2, 1, 3, 2)]
+
+    def one(a):
+        i, (sc, k, c, cap, fail) = a
         name = "c14_sched_%d.cfg" % i
-        r = ctx.tlc("PromClientSched", name, workers=1, simulate=max(1, n // len(shapes)), depth=300, seed=ctx.seed * 10 + i, timeout=1500,
-                    tag="gen-sched-%d" % i, heap="2g",
-                    files={name: SCHED_CFG % (",".join(str(x + 1) for x in range(k)), ",".join(str(x + 1) for x in range(c)), cap, fail)})
+        return ctx.tlc("PromClientSched", name, workers=1, simulate=max(1, n // len(shapes)), depth=400, seed=ctx.seed * 10 + i, timeout=1500,
+                       tag="gen-sched-%d" % i, heap="2g",
+                       files={name: SCHED_CFG % (",".join(str(x + 1) for x in range(k)), ",".join(str(x + 1) for x in range(c)), sc, cap, fail)})
+
+    with concurrent.futures.ThreadPoolExecutor(max_workers=4) as ex:
+        rs = list(ex.map(one, enumerate(shapes)))
+    for r in rs:
         for v in prints(r, "CASE"):
             key = json.dumps(v[0], sort_keys=True)
             if key not in seen:
@@ -238,7 +270,7 @@ def run(ctx, cases_override=None, repeat=1, confirm_pass=False):
         log("[c14] NOTE: hook H3 missing in the repo; running without trace validation")
     exe = build(ctx, h3)
     if cases_override is None:
-        cases, space = gen_cases(ctx, 2400 if thorough else 280)
+        cases, space = gen_cases(ctx, 2400 if thorough else 240, clock_ok=h3 and has_state_hook(ctx))
     else:
         cases, space = [], 0
         for rep in range(repeat):
@@ -260,7 +292,7 @@ def run(ctx, cases_override=None, repeat=1, confirm_pass=False):
     # ---- schedule replay of TLC behaviours through the gate of hook H3 (small instance, instant questions)
     behaviours = []
     if h3 and cases_override is None:
-        behaviours = gen_behaviours(ctx, 2400 if thorough else 240)
+        behaviours = gen_behaviours(ctx, 6000 if thorough else 320, has_state_hook(ctx))
         nb = 8
         bsh = [behaviours[i::nb] for i in range(nb)]
         t = time.time()
@@ -293,7 +325,7 @@ def run(ctx, cases_override=None, repeat=1, confirm_pass=False):
         raise MachineryError("race detector reported %d race(s) outside internal/promapi (harness bug):\n%s" % (
             foreign, [r for r in race_reps if race_sig(r) is None][0][:3000]))
     # ---- JUDGE (shards of whole cases, judged in parallel)
-    nj = 1 if len(trace) < 4000 else (12 if thorough else 8)
+    nj = 1 if len(trace) < 4000 else 12
     parts = [[] for _ in range(nj)]
     sizes = [0] * nj
     cur = []
@@ -354,7 +386,7 @@ def run(ctx, cases_override=None, repeat=1, confirm_pass=False):
             if v["case"]:
                 by_sig.setdefault(v["sig"], v["case"])
         if by_sig:
-            work = {json.dumps({k: c[k] for k in ("k", "c", "mix", "fault", "lat", "gc")}, sort_keys=True): c for c in by_sig.values()}
+            work = {json.dumps({k: c.get(k) for k in ("k", "c", "mix", "fault", "lat", "gc", "clock")}, sort_keys=True): c for c in by_sig.values()}
             again = run(ctx, cases_override=[dict(c, tracer=c.get("tracer", True)) for c in list(work.values())[:12]], repeat=8, confirm_pass=True)
             keep = []
             for v in viols:
@@ -389,7 +421,7 @@ def run(ctx, cases_override=None, repeat=1, confirm_pass=False):
         "traces_validated_against_impl": len(traced_cases),   # perturbed runs + replayed behaviours
         "samples": [sample or {"case": cases[0] if cases else None}],
         "evaluations": len(cases),
-        "distinct_nontrivial": len({(c["k"], c["c"], c["mix"], c["fault"], c["lat"], c["gc"]) for c in cases if c["id"] in contended}) if h3
+        "distinct_nontrivial": len({(c["k"], c["c"], c["mix"], c["fault"], c["lat"], c["gc"], c.get("clock")) for c in cases if c["id"] in contended}) if h3
         else len({(c["k"], c["c"], c["mix"], c["fault"], c["lat"], c["gc"]) for c in cases if c["k"] > c["c"] or c["mix"] != "distinct"}),
         "rule": "workloads drawn (seeded, stratified by question mix) from the TLC-enumerated space k x c x mix x fault x latency x gc "
                 "(%d workloads); each is run on the real client with a seeded schedule perturbation; non-trivial = distinct workload "
@@ -397,8 +429,9 @@ def run(ctx, cases_override=None, repeat=1, confirm_pass=False):
         "exhaustive": False,
         "workload_space": space, "trace_records": len(trace), "hook_events": len(hev),
         "server_requests": sum(1 for r in trace if r["ev"] == "S" and r["h"] == "start"),
-        "behaviours_generated": len(behaviours), "behaviours_replayed": len(ends) - len(unreplayable), "unreplayable": len(unreplayable),
-        "hook_h3": h3, "model_lead_cases": len(lead_cases),
+        "behaviours_generated": len(behaviours), "range_behaviours": sum(1 for b in behaviours if any(a in ("r2", "r3") for a in b["ask"])), "behaviours_replayed": len(ends) - len(unreplayable), "unreplayable": len(unreplayable),
+        "hook_h3": h3, "hook_h3b": h3 and has_state_hook(ctx),
+        "clock_cases": sum(1 for c in cases if c.get("clock", "none") != "none"), "evict_events": sum(1 for r in hev if r["h"] == "evict"), "model_lead_cases": len(lead_cases),
         "race_reports": len(race_reps), "untraced_cases": len(cases) - len({i for i in traced_cases if i <= 100000}), "transient_unreproduced": transient,
     }
     return vlib.conclude(ctx, viols, "model_checking", cov, [
@@ -410,7 +443,8 @@ def run(ctx, cases_override=None, repeat=1, confirm_pass=False):
         "the channel send/receive order is taken from hooks next to the channel operations",
         "verdict only from what the fake server logged (request intervals lie inside the client's) and what callers received; "
         "harness built with -race",
-        "cache expiry (TTL/gc eviction) is exercised in the model only; real runs last well below the 5 minute TTL",
+        "cache lifetime on real code: hook h3b replaces the cache clock; a second round of callers runs after the clock advanced 30 s / 400 s / 2 h and gc ran; "
+        "lifetimes are the implemented CacheTTL() values (query 5m, config 1m, flags/metadata 10m, range slice >= 10m), maxStale 1h",
     ] + ctx.notes, drift=drift)
 
 
